@@ -839,6 +839,53 @@ class LcGen(GovGen):
                 self.ops.append("restart")
                 self.tags.add("restart")
 
+    def scripted_logout_of_activating_chain(self):
+        """a frozen appchain is being activated (proposal open) when its logout is proposed, which pauses the activation; the
+        logout is voted down or withdrawn: the chain is back to `activating`, it was never activated, so none of its services
+        may interchange; then the activation is concluded either way; services read back and probed, also after a restart"""
+        r = self.r
+        c = r.choice(["c1", "c2", "c4"])
+        mine = [x for x in SVC if x.startswith(c + ":")]
+        self.submit(r.choice(ADMINS), f"appchain FreezeAppchain s:{c} s:reason", "appchain-freeze", "appchain", c)
+        ref, kind, mod, obj = self.props[-1]
+        self.vote_all(ref, mod, obj, "approve")
+        for x in mine:
+            self.observe(x)
+        self.submit(r.choice(ADMINS), f"appchain ActivateAppchain s:{c} s:reason", "appchain-activate", "appchain", c)
+        p_act = self.props[-1]
+        self.submit(f"ca{c[1]}", f"appchain LogoutAppchain s:{c} s:reason", "appchain-logout", "appchain", c)
+        p_out = self.props[-1]
+        for x in mine:
+            self.observe(x)
+        if r.random() < 0.3:
+            self.ops.append(f"block bvm ca{c[1]} gov WithdrawProposal s:{p_out[0]} s:reason")
+            self.ops.append(f"q prop {p_out[0]}")
+        else:
+            self.vote_all(p_out[0], "appchain", c, "reject")
+        self.ops.append(f"q prop {p_act[0]}")
+
+        def probes():
+            other = "c2:s1" if c != "c2" else "c4:s1"
+            for x in mine:
+                for f, t in ((x, other), (other, x)):
+                    i = self.idx.get((f, t), 1)
+                    self.observe(f)
+                    self.observe(t)
+                    self.ops.append(f"block ibtp ca{f[1]} {f} {t} {i} req 0 - ok")
+                    self.observe(f)
+                    self.observe(t)
+                    self.idx[(f, t)] = i + 1
+        probes()
+        last = r.choice(["approve", "reject", "reject", None])
+        if last:
+            self.vote_all(p_act[0], "appchain", c, last)
+            for x in mine:
+                self.observe(x)
+        self.ops.append("restart")
+        self.tags.add("restart")
+        probes()
+        self.tags.add(f"logout-of-activating-chain:{last}")
+
     def late_vote(self):
         if not self.pending:
             return self.govern()
@@ -868,6 +915,8 @@ def gen_c16(rng, n, tier):
             g.scripted_cascade()
         elif k0 < 0.72:
             g.scripted_reopened_under_freeze()
+        elif k0 < 0.82:
+            g.scripted_logout_of_activating_chain()
         for _ in range(r.randint(5, 14)):
             k = r.random()
             if k < 0.5:
@@ -890,6 +939,7 @@ def mon_c16(h, obs):
     tables, avail = load_lifecycle()
     status = {}        # (kind, id) -> latest status
     once_forbidden = set()
+    chain_frozen = {}  # appchain -> an approved freeze / logout took effect and no activation has been approved since
     blocks_since = {}  # (kind,id) -> number of block ops since its last observation
     steps = list(zip(h.ops, obs))
     for i, (op, o) in enumerate(steps):
@@ -933,6 +983,11 @@ def mon_c16(h, obs):
                                     f"{kind} {oid} went {old} -> {new}, which is no transition of its state machine", detail=steps[i - 1][0] if i else op))
             status[key] = new
             blocks_since[key] = 0
+            if kind == "appchain":
+                if new in ("frozen", "forbidden"):
+                    chain_frozen[oid] = True
+                elif new in set(avail.get("appchain", ["available"])):
+                    chain_frozen[oid] = False
             # cascade, whenever a service and its appchain were both observed since the last block: a frozen / logged-out
             # appchain has no usable service
             if kind in ("appchain", "service"):
@@ -941,7 +996,10 @@ def mon_c16(h, obs):
                 for c_id, s_id in pairs:
                     if blocks_since.get(("appchain", c_id), 9) == 0 and blocks_since.get(("service", s_id), 9) == 0:
                         ca, ss = status.get(("appchain", c_id)), status.get(("service", s_id))
-                        if ca in ("frozen", "forbidden") and ss in set(avail.get("service", ["available"])):
+                        # ... also while the chain is on its way out of `frozen` without an approved activation (activating,
+                        # logouting after frozen): the approved freeze still stands
+                        if (ca in ("frozen", "forbidden") or (chain_frozen.get(c_id) and ca not in set(avail.get("appchain", ["available"])))) \
+                                and ss in set(avail.get("service", ["available"])):
                             hits.append(Hit("C16/service-usable-on-unusable-appchain", f"appchain {c_id} is {ca} but its service {s_id} is {ss}", detail=op))
         if ws[0] == "block" and len(ws) > 2 and ws[1] == "ibtp" and " | " not in op:
             m = mon_exec.BLK.match(o)
@@ -969,7 +1027,7 @@ def mon_c16(h, obs):
             for svc in (f, t):
                 ca = status.get(("appchain", svc.split(":")[0]))
                 ss = status.get(("service", svc))
-                if ca is not None and ss is not None and ca not in aa and ca in ("frozen", "forbidden") and ss in sa:
+                if ca is not None and ss is not None and ca not in aa and (ca in ("frozen", "forbidden") or chain_frozen.get(svc.split(":")[0])) and ss in sa:
                     hits.append(Hit("C16/service-usable-on-unusable-appchain", f"appchain {svc.split(':')[0]} is {ca} but its service {svc} is {ss}", detail=op))
     return hits
 
